@@ -3,6 +3,7 @@ import KalignModel.Driver.Weave
 import KalignModel.Driver.Param
 import KalignModel.Driver.Dp
 import KalignModel.Driver.Io
+import KalignModel.Driver.Misc
 /-!
 Line-protocol driver: one operation per input line, one result line per operation.
 Only executable model definitions are imported here (no `Props`, no Mathlib), so a failing proof
@@ -10,7 +11,7 @@ never prevents the model from running.  Each slice of the model contributes an `
 -/
 namespace Kalign.Driver
 
-def tables : OpTable := weaveOps ++ paramOps ++ dpOps ++ ioOps
+def tables : OpTable := weaveOps ++ paramOps ++ dpOps ++ ioOps ++ miscOps
 
 def step (line : String) : String :=
   match (line.trimAscii.toString.splitOn " ").filter (· ≠ "") with
